@@ -5,11 +5,15 @@ LEVEL_TEXT = (
     "Unbounded proof for all numbers of members, all member lengths (zeros anywhere) and all valid indices: __len__ is the sum of the member "
     "lengths, the cumulative lengths are its prefix sums, __getitem__(i) returns the very maze at position i of the concatenation (the unique "
     "(member d, offset k) with i = len_0+...+len_{d-1}+k, 0 <= k < len_d), no IndexError, and the flattened maze list is that concatenation. "
-    "update_self_config / reported maze count are checked by the bounded stand-in only."
+    "update_self_config is proved too (both loops of the real body, the member's own update_self_config inlined): afterwards the reported maze count cfg.n_mazes is len(collection), every member's own configuration "
+    "and every member configuration held by the collection report that member's length, and no maze moved - in value semantics (the collection's member configurations and the members' own configurations as separate "
+    "objects; shared objects and the cached flattened list are decided by the bounded stand-in, which runs four config-sharing variants and multi-step member replacement)."
 )
 LEVEL_NOTE = (
     "Trusted library contracts: itertools.accumulate (running sums), np.searchsorted (local characterisation on a nondecreasing array), "
-    "itertools.chain.from_iterable (positional concatenation); lemma psum_monotone (prefix sums of non-negative ints are nondecreasing)."
+    "itertools.chain.from_iterable (positional concatenation); lemmas psum_monotone (prefix sums of non-negative ints are nondecreasing) and psum_congruence; python's loop variable IS the list element "
+    "(an element mutated through the loop variable is written back; refused when the body rebinds the variable); a class property shadows a same-named entry of the instance __dict__; "
+    "@cached_property is not modelled (every read recomputes)."
 )
 TECHNIQUE = "contract-based deductive verification of the real functions (AST-derived VCs, z3) + exhaustive small-scope run-time check"
 CONTRACT_MODULES = ["contracts.collection"]
@@ -20,6 +24,7 @@ PROVE = [
     (F, "MazeDatasetCollection.dataset_cum_lengths"),
     (F, "MazeDatasetCollection.__getitem__"),
     (F, "MazeDatasetCollection.mazes"),
+    (F, "MazeDatasetCollection.update_self_config"),
 ]
 ASSUMPTIONS = ["a maze is identified by an opaque identity field; member datasets are lists of such mazes"]
 EXPLANATION = "see DESIGN.md C16"
